@@ -24,8 +24,8 @@ pub enum Call {
     WriteFlush(&'static [u8]),
     /// write to the kept handle and drop it
     WriteClose(&'static [u8]),
-    /// set_modification_time to a fixed instant
-    SetModified(&'static str),
+    /// set_creation_time / set_modification_time / set_access_time (0 / 1 / 2) to a fixed instant
+    SetTime(&'static str, u8),
     RemoveFile(&'static str),
     RemoveDir(&'static str),
     Exists(&'static str),
@@ -40,8 +40,8 @@ pub enum Call {
 pub enum Res {
     Unit,
     Bool(bool),
-    /// type, length, modified == the fixed instant of SetModified
-    Meta(u8, u64, bool),
+    /// type, length, which of created / modified / accessed equal the fixed instant of SetTime
+    Meta(u8, u64, [bool; 3]),
     List(Vec<String>),
     Bytes(Vec<u8>),
     Err(Kind),
@@ -53,6 +53,11 @@ pub enum Res {
 /// error kinds are not compared (tried: the unchanged tree then "fails" in thousands of ways).
 fn fixed_instant() -> std::time::SystemTime {
     std::time::UNIX_EPOCH + std::time::Duration::from_secs(86_400 * 365)
+}
+
+fn time_flags(m: &vfs::VfsMetadata) -> [bool; 3] {
+    let t = Some(fixed_instant());
+    [m.created == t, m.modified == t, m.accessed == t]
 }
 
 fn ek(_e: vfs::VfsError) -> Res {
@@ -106,10 +111,13 @@ fn exec_call_fs(
             }
             None => Res::NoHandle,
         },
-        Call::SetModified(p) => fs
-            .set_modification_time(p, fixed_instant())
-            .map(|_| Res::Unit)
-            .unwrap_or_else(ekf),
+        Call::SetTime(p, k) => match k {
+            0 => fs.set_creation_time(p, fixed_instant()),
+            1 => fs.set_modification_time(p, fixed_instant()),
+            _ => fs.set_access_time(p, fixed_instant()),
+        }
+        .map(|_| Res::Unit)
+        .unwrap_or_else(ekf),
         Call::RemoveFile(p) => fs.remove_file(p).map(|_| Res::Unit).unwrap_or_else(ekf),
         Call::RemoveDir(p) => fs.remove_dir(p).map(|_| Res::Unit).unwrap_or_else(ekf),
         Call::Exists(p) => fs.exists(p).map(Res::Bool).unwrap_or_else(ekf),
@@ -119,7 +127,7 @@ fn exec_call_fs(
                 Res::Meta(
                     m.file_type as u8,
                     m.len,
-                    m.modified == Some(fixed_instant()),
+                    time_flags(&m),
                 )
             })
             .unwrap_or_else(ekf),
@@ -174,10 +182,13 @@ fn exec_call(
             },
             None => Res::NoHandle,
         },
-        Call::SetModified(p) => at(p)
-            .set_modification_time(fixed_instant())
-            .map(|_| Res::Unit)
-            .unwrap_or_else(ek),
+        Call::SetTime(p, k) => match k {
+            0 => at(p).set_creation_time(fixed_instant()),
+            1 => at(p).set_modification_time(fixed_instant()),
+            _ => at(p).set_access_time(fixed_instant()),
+        }
+        .map(|_| Res::Unit)
+        .unwrap_or_else(ek),
         Call::WriteClose(b) => match handle.take() {
             Some(mut h) => {
                 // write, then close: the drop publishes the buffer under one lock acquisition (an
@@ -201,7 +212,7 @@ fn exec_call(
                 Res::Meta(
                     m.file_type as u8,
                     m.len,
-                    m.modified == Some(fixed_instant()),
+                    time_flags(&m),
                 )
             })
             .unwrap_or_else(ek),
@@ -240,18 +251,17 @@ fn fs_key(b: &Built) -> Vec<u8> {
     let mut bytes = vec![];
     for base in &b.bases {
         snapshot(&base.raw, &probes).key_bytes(&mut bytes);
-        // which entries carry the instant written by SetModified
+        // which timestamps of which entries carry the instant written by SetTime
         for p in &probes {
             let set = base
                 .raw
                 .join(&p[1..])
                 .ok()
                 .and_then(|x| x.metadata().ok())
-                .map(|m| m.modified == Some(fixed_instant()));
+                .map(|m| time_flags(&m));
             bytes.push(match set {
                 None => 0,
-                Some(false) => 1,
-                Some(true) => 2,
+                Some(f) => 1 + f[0] as u8 + 2 * f[1] as u8 + 4 * f[2] as u8,
             });
         }
     }
@@ -360,7 +370,9 @@ fn items(paths: &[&'static str], full: bool) -> Vec<Vec<Call>> {
         v.push(vec![Call::RemoveFile(p)]);
         v.push(vec![Call::RemoveDir(p)]);
         if full {
-            v.push(vec![Call::SetModified(p)]);
+            for k in 0..3 {
+                v.push(vec![Call::SetTime(p, k)]);
+            }
             v.push(vec![Call::Exists(p)]);
             v.push(vec![Call::Metadata(p)]);
             v.push(vec![Call::ReadDir(p)]);
@@ -626,7 +638,9 @@ fn call_kind(c: &Call) -> String {
         Call::OpenAppend(p) => format!("append_file({})", p),
         Call::WriteFlush(_) => "write+flush".into(),
         Call::WriteClose(_) => "write+close".into(),
-        Call::SetModified(p) => format!("set_modification_time({})", p),
+        Call::SetTime(p, 0) => format!("set_creation_time({})", p),
+        Call::SetTime(p, 1) => format!("set_modification_time({})", p),
+        Call::SetTime(p, _) => format!("set_access_time({})", p),
         Call::RemoveFile(p) => format!("remove_file({})", p),
         Call::RemoveDir(p) => format!("remove_dir({})", p),
         Call::Exists(p) => format!("exists({})", p),
